@@ -785,6 +785,18 @@ def comprehension(ev: Ev, node, kind):
                   [cols[i][j] == z3.substitute(leaves[i], (k, ij)) for i in range(len(cols))])
     st.assume(mk_quant("forall", [j], z3.Implies(z3.And(0 <= j, j < m), body), patterns=[cols[0][j], idx(j)]))
     st.assume(mk_quant("forall", [j], z3.Implies(z3.And(0 <= j, j < m - 1), idx(j) < idx(j + 1)), patterns=[idx(j)]))
+    j2 = z3.Int(st.run.fresh_name("cj2"))
+    # monotone in general (the consecutive form above implies it by induction, which the solver cannot do)
+    st.assume(z3.ForAll([j, j2], z3.Implies(z3.And(0 <= j, j < j2, j2 < m), idx(j) < idx(j2)),
+                        patterns=[z3.MultiPattern(idx(j), idx(j2))]))
+    st.assume(mk_quant("forall", [j], z3.Implies(z3.And(0 <= j, j < m), inv(idx(j)) == j), patterns=[idx(j)]))
+    # filter lemma (by induction on paper, A-filter-total): a filter that keeps every element is the identity
+    i3 = z3.Int(st.run.fresh_name("ci3"))
+    j3 = z3.Int(st.run.fresh_name("cj3"))
+    keeps_all = mk_quant("forall", [i3], z3.Implies(z3.And(0 <= i3, i3 < n), z3.substitute(cond, (k, i3))),
+                         patterns=[c[i3] for c in lo.cols][:1])
+    st.assume(z3.Implies(keeps_all, z3.And(m == n, mk_quant("forall", [j3], z3.Implies(z3.And(0 <= j3, j3 < n), idx(j3) == j3),
+                                                          patterns=[idx(j3)]))))
     i2 = z3.Int(st.run.fresh_name("ci"))
     st.assume(mk_quant("forall", [i2], z3.Implies(z3.And(0 <= i2, i2 < n, z3.substitute(cond, (k, i2))),
                                                    z3.And(0 <= inv(i2), inv(i2) < m, idx(inv(i2)) == i2)),
